@@ -11,6 +11,7 @@ import (
 
 	"github.com/openconfig/gnmi/cache"
 	"github.com/openconfig/gnmi/ctree"
+	"github.com/openconfig/gnmi/latency"
 	"github.com/openconfig/gnmi/metadata"
 	pb "github.com/openconfig/gnmi/proto/gnmi"
 	"github.com/openconfig/gnmi/zzverif/seqmc"
@@ -187,6 +188,9 @@ func init() {
 	cache.Now = func() time.Time {
 		w := curWorld
 		if w == nil {
+			if cacheLatNow != nil {
+				return time.Unix(0, *cacheLatNow)
+			}
 			return time.Unix(0, 1)
 		}
 		if w.cfg.fixedClock > 0 {
@@ -215,6 +219,11 @@ func newWorld(cfg *specCfg) *world {
 	// metadata: every world starts from the unregistered state, so that worlds
 	// with and without the option can follow each other in one process
 	metadata.UnregisterServerNameMetadata()
+	// likewise the latency statistics a cache with latency windows registers
+	// (the cache-level latency spec of C15 builds such caches)
+	for _, typ := range []latency.StatType{latency.Avg, latency.Max, latency.Min} {
+		metadata.UnregisterIntValue(latency.MetadataName(2*time.Second, typ))
+	}
 	if cfg.serverName != "" {
 		opts = append(opts, cache.WithServerName(cfg.serverName))
 	}
